@@ -86,6 +86,25 @@ def run(ctx: Ctx) -> Result:
             st2, it2, o2 = run_s(P(sa) + P(R) + P(t2) + op('DECRYPT_ADAPTER_SIG'))
             if st2 == 'OK' and len(it2) == 2 and ref_verify(X, m, it2[0] + it2[1]):
                 viol('decryption with another scalar verifies', {'script': dc.hex()}, 'not a signature', o2)
+    # degenerate tweak points (the neutral element, points of order 2 / 4 / 8): an adapter made or accepted for such a T would be
+    # a plain signature (T = 0) or differ from one by a torsion point - neither instruction may produce / accept one
+    small = ['0100000000000000000000000000000000000000000000000000000000000000', 'ecffffffffffffffffffffffffffffffffffffffffffffffffffffffffffffff7f',
+             '0000000000000000000000000000000000000000000000000000000000000000', '0000000000000000000000000000000000000000000000000000000000000080',
+             'c7176a703d4dd84fba3c0b760d10670f2a2053fa2c39ccc64ec7fd7792ac037a', '26e8958fc2b227b045c3f489f2ef98f0d5dfac05d3c63339b13802886d53fc05']
+    for hx in small:
+        Ts = bytes.fromhex(hx)
+        for it in range(ctx.n(2, 6)):
+            seed = V.rbytes(rng, 32); sk = SigningKey(seed); X = bytes(sk.verify_key); m = V.rbytes(rng, rng.choice([1, 20, 64]))
+            res.note_case(('degenerate-T', hx, seed, m))
+            mk = P(seed) + P(m) + P(Ts) + op('MAKE_ADAPTER_SIG_PUBLIC'); rec(mk)
+            st, items, o = run_s(mk)
+            if st == 'OK' and len(items) == 2 and ref_verify(X, m, items[0] + items[1]):
+                viol('MAKE_ADAPTER_SIG_PUBLIC with a degenerate tweak point returns a plain signature as "adapter"', {'script': mk.hex(), 'message': m.hex(), 'key': X.hex(), 'T': hx}, 'an error (invalid point), or an adapter that is not a signature', o)
+            sig = sk.sign(m).signature
+            sc = P(sig[32:]) + P(sig[:32]) + P(m) + P(Ts) + P(X) + op('CHECK_ADAPTER_SIG'); rec(sc)
+            st, items, o = run_s(sc)
+            if st == 'OK' and items and items[-1] == b'\xff':
+                viol('CHECK_ADAPTER_SIG accepts a plain signature as an adapter for a degenerate tweak point', {'script': sc.hex(), 'T': hx}, 'false or an error', o)
     # what the instruction leaves in the cache (flags on by default): the cached R / sa / T are the adapter and its tweak point,
     # so reading them back must pass the adapter check exactly like the stack outputs
     rd = lambda k: op('READ_CACHE') + bytes([len(k)]) + k
